@@ -732,7 +732,7 @@ def cases(tier, rng):
              ([2, 1, 2], _pixels_prefix(5, 12, lambda i, j: 1 + (i + 2 * j) % 5)),   # 12: many divisors
              ([2, 3], [[2, 2, 4], [2, 3, 1], [2, 4, 9], [3, 3, 2], [3, 4, 5], [4, 4, 8]])]   # first chromosome has no pixels
     coolers = list(fixed)
-    for _ in range(20 if thorough else 3):
+    for _ in range(16 if thorough else 3):
         coolers.append(_rand_cooler(rng, 8, 16 if thorough else 12, minnnz=3))
     for ci, (chroms, px) in enumerate(coolers):
         n = sum(chroms)
@@ -756,7 +756,7 @@ def cases(tier, rng):
                         yield "pipeline", dict(base, map=kind, nproc=rng.randint(2, 4), seed=0)
 
     # (c) full balance_cooler across schedules -----------------------------------------------------
-    nb = 70 if thorough else 18
+    nb = 60 if thorough else 18
     for bi in range(nb):
         big = thorough and bi % 4 == 0
         mode = ["gw", "cis", "trans"][bi % 3]
